@@ -5,9 +5,16 @@ import (
 	. "verif/harness/internal/c01"
 )
 
-func hc(args ...N) N { return Expr(Call(Id("H"), args...)) }
+func hc(args ...N) N              { return Expr(Call(Id("H"), args...)) }
+func od(name string, args ...N) N { return Call(Dot(Id("Object"), name), args...) }
 
-// Pool is the program pool (also used by the replay driver through package api).
+// numOr0(x) = (typeof x === "number") ? x : 0 : safe on an undeclared name
+func numOr0(n string) N { return Cond(Bin("===", Un("typeof", Id(n)), Str("number")), Id(n), Num(0)) }
+
+// Pool is the program pool of the API state machine (serialised into
+// spec/OttoAPIProgs.tla by cmd/genprogs and rendered to source text by the
+// replay driver).  Every program's outcome depends on what earlier API calls
+// did to the runtime.  Only constructs spec/ES5Core.tla models are used.
 func Pool() [][]N {
 	orZero := func(n string) N { return Bin("||", Id(n), Num(0)) }
 	return [][]N{
@@ -18,18 +25,27 @@ func Pool() [][]N {
 			Block(Expr(Asg("=", Id("f"), Call(Fn("", nil, Var("c", Num(0)), Return(Fn("", nil, Expr(Asg("=", Id("c"), Bin("+", Id("c"), Num(1)))), Return(Id("c"))))))))), nil),
 			hc(Call(Id("f"))), Expr(Call(Id("f")))},
 		// 3 object attributes: frozen at the end of the first run
-		{Var("o", nil), If(Un("!", Id("o")), Block(Expr(Asg("=", Id("o"), Obj("a", Num(1))))), nil),
-			Expr(Asg("=", Dot(Id("o"), "a"), Bin("+", Dot(Id("o"), "a"), Num(1)))), hc(Dot(Id("o"), "a"), Call(Dot(Id("Object"), "isFrozen"), Id("o"))),
-			Expr(Call(Dot(Id("Object"), "freeze"), Id("o"))), Expr(Dot(Id("o"), "a"))},
+		{Var("o", nil), If(Bin("!==", Un("typeof", Id("o")), Str("object")), Block(Expr(Asg("=", Id("o"), Obj("a", Num(1))))), nil),
+			Expr(Asg("=", Dot(Id("o"), "a"), Bin("+", Dot(Id("o"), "a"), Num(1)))), hc(Dot(Id("o"), "a"), od("isFrozen", Id("o"))),
+			Expr(od("freeze", Id("o"))), Expr(Dot(Id("o"), "a"))},
 		// 4 an effect, then an uncaught exception
 		{Var("n", nil), Expr(Asg("=", Id("n"), Bin("+", orZero("n"), Num(10)))), hc(Str("before")), Throw(New(Id("TypeError"), Str("t")))},
-		// 5 host calls inside try / catch / finally
+		// 5 host calls inside try / catch / finally: a host panic at call k lands in the block, the handler or the finaliser
 		{Var("n", nil), Try([]N{hc(Num(1)), Expr(Asg("=", Id("n"), Bin("+", orZero("n"), Num(100)))), hc(Num(2))}, "e",
 			[]N{hc(Str("caught"), Id("e"))}, true, []N{hc(Num(3))}, true), Expr(Id("n"))},
-		// 6 prototype chain and accessor
+		// 6 prototype chain: the prototype object is mutated by every run
 		{FDecl("P", nil), If(Bin("===", Un("typeof", Id("q")), Str("undefined")),
 			Block(Expr(Asg("=", Id("q"), New(Id("P")))), Expr(Asg("=", Id("qp"), Dot(Id("P"), "prototype")))), nil),
 			Expr(Asg("=", Dot(Id("qp"), "v"), Bin("+", Bin("||", Dot(Id("qp"), "v"), Num(0)), Num(1)))), hc(Dot(Id("q"), "v"), Bin("instanceof", Id("q"), Id("P")))},
+		// 7 a function declared by this run (and called through the host function) ...
+		{FDecl("bump", []string{"d"}, Expr(Asg("=", Id("n"), Bin("+", numOr0("n"), Id("d")))), Return(Id("n"))), hc(Str("decl"), Call(Id("bump"), Num(1)))},
+		// 8 ... and called by another: a ReferenceError after an effect when no earlier run declared it
+		{hc(Un("typeof", Id("bump")), Un("typeof", Id("n"))), Expr(Call(Id("bump"), Num(3)))},
+		// 9 delete of a global: var bindings of global code stay, bindings made by eval code, assignment or vm.Set go
+		{hc(Un("typeof", Id("n")), Un("delete", Id("n")), Un("typeof", Id("n"))), Expr(Un("typeof", Id("n")))},
+		// 10 an accessor on the global object defined by this run ...
+		{Expr(od("defineProperty", This(), Str("g"), Obj("get", Fn("", nil, hc(Str("g"), Un("typeof", Id("n"))), Return(numOr0("n"))), "configurable", Bool(true)))), hc(Str("def"))},
+		// 11 ... and read by another (inside try: the host function called by the getter may panic)
+		{Try([]N{hc(Bin("+", Dot(This(), "g"), Num(1)))}, "e", []N{hc(Str("c"), Id("e"))}, true, nil, false), Expr(Dot(This(), "g"))},
 	}
 }
-
